@@ -154,7 +154,26 @@ def fam_tiling(ctx, rng):
         ctx.violation('outline.%s:%s:raises' % (which, mode), '%r' % (e,), desc); return
     if got is None or got != set(cells):
         ctx.violation('outline.%s:%s:wrong_region' % (which, mode), 'outline region differs from the union of the tiles: extra %s missing %s' % (
-            sorted((got or set()) - set(cells))[:5], sorted(set(cells) - (got or set()))[:5]), desc)
+            sorted((got or set()) - set(cells))[:5], sorted(set(cells) - (got or set()))[:5]), desc); return
+    # the outline is made of simple loops and encloses exactly the tiled area (a self-crossing loop can pass the even-odd reading)
+    all_loops = res if which == 'polygon' else loops
+    for lp in all_loops:
+        f = [X.fpt(v) for v in lp.vertices]
+        if not X.is_simple(f):
+            ctx.violation('outline.%s:%s:self_crossing' % (which, mode), 'a returned outline loop is not a simple polygon', desc); return
+    if which == 'face':
+        tot = sum(f.area for f in out)
+        if abs(tot - len(cells)) > 1e-6 * len(cells):
+            ctx.violation('outline.%s:%s:area' % (which, mode), 'joined faces have area %r, the tiles cover %d' % (tot, len(cells)), desc); return
+    else:
+        # loops of a tiling with voids: outer loops minus void loops (nesting depth by exact containment of one vertex)
+        tot = Fraction(0)
+        L = [[X.fpt(v) for v in lp.vertices] for lp in res]
+        for i, lp in enumerate(L):
+            depth = sum(1 for j, other in enumerate(L) if j != i and X.winding_inside(other, ((lp[0][0] + lp[1][0]) / 2, (lp[0][1] + lp[1][1]) / 2)) is True)
+            tot += X.area(lp) * (-1) ** depth
+        if tot != len(cells):
+            ctx.violation('outline.%s:%s:area' % (which, mode), 'outline loops enclose area %s, the tiles cover %d' % (float(tot), len(cells)), desc)
 
 
 FAMILIES = [(fam_soup, 120), (fam_tiling, 60)]
